@@ -51,7 +51,26 @@ def rule_pitchtables(ctx):
     # arrangement of the tests around them), and the letter looked up in PITCH_CLASSES
     from .common import facts as _facts
 
+    def _leaves(t, conds):
+        if t.op == "ite":
+            yield from _leaves(t.a[1], conds + [(t.a[0], True)])
+            yield from _leaves(t.a[2], conds + [(t.a[0], False)])
+        else:
+            yield t, conds
+
     for m in s.by_kind("mutate"):
+        if m.how == "aug" and m.val.op == "ite" and m.key is not None and m.key.op == "const" and m.key.a[0] == "+":
+            # semitone += step with step looked up from the character: +1 under '#', -1 under 'b'
+            for leaf, conds in _leaves(m.val, []):
+                chars = set()
+                for c, pol in conds:
+                    if pol and c.op == "cmp" and c.a[0] == "==" and any(z.op == "const" and z.a[0] in ("#", "b") for z in c.a[1:]) and any(z.op == "iter" for z in c.a[1:]):
+                        chars.add([z.a[0] for z in c.a[1:] if z.op == "const"][0])
+                if chars == {"#"} and tm.is_const(leaf, 1):
+                    sharp = True
+                if chars == {"b"} and tm.is_const(leaf, -1):
+                    flat = True
+            continue
         if m.how != "aug" or not tm.is_const(m.val, 1):
             continue
         op = m.key.a[0] if m.key is not None and m.key.op == "const" else None
